@@ -87,19 +87,29 @@ pub(crate) fn parse_yaml12_float_angle_converting<T>(
 where
     T: FromF64,
 {
-    // An ordinary decimal literal (sign, digits, '.', exponent; nothing to evaluate or convert)
-    // keeps exactly the value it has without angle conversions: parse it directly as `T`
-    // instead of going through f64, which would round an f32 twice.
-    if !matches!(tag, SfTag::Degrees) {
-        let t = s.trim_matches(|c: char| matches!(c, ' ' | '\t' | '\n' | '\r'));
-        if !t.is_empty()
-            && t.len() <= MAX_NUM_DIGITS
-            && t.bytes()
-                .all(|c| c.is_ascii_digit() || matches!(c, b'.' | b'e' | b'E' | b'+' | b'-'))
-        {
-            if let Some(v) = T::parse_decimal(t) {
-                return Ok(v);
+    // An ordinary float literal (nothing to evaluate or convert) keeps exactly the value it has
+    // without angle conversions: whatever that parser accepts - same trimming, same `.inf` /
+    // `.nan` forms, same spellings of the standard library - is parsed the same way, directly as
+    // `T` instead of going through f64, which would round an f32 twice.
+    // Under the Degrees tag the same literals are accepted too, converted once.
+    let t = s.trim();
+    if !t.is_empty() && t.len() <= MAX_NUM_DIGITS {
+        let degrees = matches!(tag, SfTag::Degrees);
+        let special = match t.to_ascii_lowercase().as_str() {
+            ".nan" | "+.nan" | "-.nan" => Some(f64::NAN),
+            ".inf" | "+.inf" => Some(f64::INFINITY),
+            "-.inf" => Some(f64::NEG_INFINITY),
+            _ => None,
+        };
+        if let Some(v) = special {
+            return Ok(T::from_f64(if degrees { v * DEG2RAD } else { v }));
+        }
+        if degrees {
+            if let Some(v) = <f64 as FromF64>::parse_decimal(t) {
+                return Ok(T::from_f64(v * DEG2RAD));
             }
+        } else if let Some(v) = T::parse_decimal(t) {
+            return Ok(v);
         }
     }
 
